@@ -1,26 +1,32 @@
 /-
   Model of `multiparty/threshold.go` (t-out-of-N threshold secret sharing), property C15.
 
-  Design choice (see AGENT_BRIEF, "your choice, say which"): the model works per prime modulus
-  on *canonical residues* (`Nat`, reduced with `%`), not on Montgomery words.  This is exact on
-  everything observable through the public API, because
+  Design choice: the model works per prime modulus on *canonical residues* (`Nat`, reduced with
+  `%`), not on Montgomery words.  That this is exact on everything observable through the public API
+  is no longer only argued and tied, it is PROVED against the regenerated word-level code
+  (`Props/C15Gen.lean`, `Props/C15Words.lean`; hypotheses: `q` prime, `2 < q`, `4q ≤ 2^64`,
+  `MontConst q MRedConstant`, `BRedConstant = brc q`, input words `< q`, points `< 2^64`):
 
   * `ring.EvalPolyScalar` uses `MulScalar` = `MRed(c, MForm(x))` = `c·x mod q` (fully reduced, no
     change of representation of `c`) and `Add` = `CRed(a+b)`, so a Shamir share is the Horner
     evaluation of the *raw words* of the coefficient polynomials (the secret key is stored in
-    NTT+Montgomery form, the map is linear, the raw words go through unchanged);
+    NTT+Montgomery form, the map is linear, the raw words go through unchanged)
+    — `hornerWord_eq`, `share_entry_words`;
   * the Lagrange factors kept in `Combiner.lagrangeCoeffs` are private, lazily reduced
-    (`MRedLazy`, range `[0,2q)`) Montgomery representatives of `that/(that−this)`; the only use is
-    `MulRNSScalarMontgomery(ownShare, prod)` = `MRed(word, prod)`, which is fully reduced and
-    equals `word · Π that/(that−this) mod q`.  (`Inverse` on the non-Montgomery difference `d`
-    yields `d^(q−2)·R²`, the following `MRedLazy` by the plain `that` yields `that·d^(q−2)·R`.)
+    (`MRedLazy`, range `[0,2q)`) Montgomery representatives of `that/(that−this)`
+    (`lagrangeCoeff_gen`); the only use is `MulRNSScalarMontgomery(ownShare, prod)` =
+    `MRed(word, prod)`, which is fully reduced and equals `word · Π that/(that−this) mod q`
+    — `prodWord_refines`, `additiveWord_eq`, `additive_entry_words`;
   * `Inverse(0) = 0^(q−2) = 0` (no panic, no error), which `powMod` reproduces (it still happens
     inside `NewCombiner` for colliding points; since fix 98b63bb `GenAdditiveShare` refuses to use
     such a factor).
 
   So the harness compares raw output words with the model's residues, without any conversion.
-  Preconditions under which the model is exact: every modulus `q` satisfies `2 < q < 2^61`, every
-  input word is `< q` (true of sampler output and of secret keys).
+  What remains tied only (correspondence check, not proved): that `multiparty/threshold.go` and
+  `ring.EvalPolyScalar` — struct-heavy code go2lean does not print — call those word functions in
+  this order on these slices; the map/slice behaviour (`lagrangeCoeffs[active]` nil ⇒ panic,
+  negative threshold ⇒ panic, level checks).  Sampling of the Shamir polynomial's random
+  coefficients is property C17 (the harness records what the real sampler produced).
 
   Structure follows the Go code:
     `evalPolyScalarRows` (`horner` = its action on one word)
@@ -33,6 +39,8 @@
                                    Combiner.pointsCollide, Combiner.GenAdditiveShare (error rule,
                                    "first t" rule, collision ⇒ err, map miss ⇒ nil slice ⇒ panic)
     `genShamirPolynomial`, `genShamirSecretShare`, `aggregateShares`   Thresholdizer.*
+    `evalPolyScalarInto`, `genShamirSecretShareInto`   the same with the receiver's previous content
+                                   as an explicit argument (`p2.Copy(p1[last])` kept as a step)
     `partyAdditiveShare`, `thresholdRun`   the reconstruction run of `testThreshold` (driver op `run`)
   Core Lean only.
 -/
@@ -127,6 +135,32 @@ def evalPolyScalarRows (ms : List Nat) (x : Nat) : List Rows → Option Rows
     | none => none
     | some acc => some (addRows ms (mulScalarRows ms x acc) p)
 
+/-! ### the same evaluation with the RECEIVER made explicit
+
+`ring.EvalPolyScalar(p1, x, p2)` is `p2.Copy(p1[last])` followed by in-place updates
+`MulScalar(p2, x, p2); Add(p2, p1[i-1], p2)`.  The in-place updates overwrite every word of `p2`
+(the lanes run over `len(p1)` words of every row of the ring's level), so the only place where the
+previous content of the receiver could survive is the initial `Copy` (Go `copy(dst, src)` per row).
+`evalPolyScalarInto` keeps that step; `Proofs/ShamirRecv.lean` proves that for a receiver of the
+shape of the coefficients the result does not depend on its content (and equals
+`evalPolyScalarRows`).  (Seeded regression C15-r3m1 dropped the `Copy`: its result is
+`old(p2)·x^t + p1(x)`.) -/
+
+/-- Go `copy(dst, src)` on one row: the first `min(len dst, len src)` words are overwritten. -/
+def copyWords (dst src : List Nat) : List Nat := src.take dst.length ++ dst.drop src.length
+
+/-- `Poly.CopyLvl(level(src), src)` into `dst` (rows `0 … level(src)`; both at the same level). -/
+def copyRows (dst src : Rows) : Rows := List.zipWith copyWords dst src ++ dst.drop src.length
+
+/-- `ring.EvalPolyScalar(p1, x, p2)` with `recv` the content of `p2` on entry. -/
+def evalPolyScalarInto (ms : List Nat) (x : Nat) : List Rows → Rows → Option Rows
+  | [], _ => none
+  | [p], recv => some (copyRows recv p)
+  | p :: p' :: rest, recv =>
+    match evalPolyScalarInto ms x (p' :: rest) recv with
+    | none => none
+    | some acc => some (addRows ms (mulScalarRows ms x acc) p)
+
 /-- `ShamirPolynomial.Value`: `t` ringqp polynomials, constant term (the secret) first. -/
 abbrev ShamirPoly := List QP
 
@@ -141,6 +175,13 @@ def genShamirPolynomial (threshold : Int) (secret : QP) (rand : List QP) : Outco
 (the `Q` rows and the `P` rows go through the same loop, independently per modulus). -/
 def genShamirSecretShare (r : RingQP) (recipient : Nat) (sp : ShamirPoly) : Outcome QP :=
   match evalPolyScalarRows r.ms recipient (sp.map (·.rows)) with
+  | none => .panic
+  | some rows => .ok ⟨r.nq, rows⟩
+
+/-- `GenShamirSecretShare(recipient, secretPoly, &shareOut)` with `recv` the content of `shareOut`
+on entry. -/
+def genShamirSecretShareInto (r : RingQP) (recipient : Nat) (sp : ShamirPoly) (recv : QP) : Outcome QP :=
+  match evalPolyScalarInto r.ms recipient (sp.map (·.rows)) recv.rows with
   | none => .panic
   | some rows => .ok ⟨r.nq, rows⟩
 
